@@ -115,7 +115,10 @@ def opsSolver (op : String) (ins outs : List String) : Option String :=
     | .push b :: _ =>
       if !(b == root) then pure "FAIL first-pushed-box-is-not-the-initial-box" else
       match Cover.check cert pv evs with
-      | .ok k => pure (if k == 0 then "ok log-accepted" else s!"ok log-accepted-with-uniqueness-certificates {k}")
+      | .ok k =>
+        -- measured, not judged: is the real log, event for event, a run of the modelled loop (`SearchLoop.loopShaped`)?
+        let shape := if SearchLoop.loopShaped evs then "loop-shaped" else "other-shape"
+        pure (if k == 0 then s!"ok log-accepted {shape}" else s!"ok log-accepted-with-uniqueness-certificates {k} {shape}")
       | .error e =>
         -- locate the first offending event for the replay
         let k := (List.range (evs.length + 1)).find? fun k =>
